@@ -1,6 +1,7 @@
 package main
 
 import (
+	"os"
 	"fmt"
 	"go/ast"
 	"go/token"
@@ -413,15 +414,29 @@ func (fr *Frame) binop(op token.Token, x, y *Val, rt types.Type, pos token.Pos) 
 		}
 	}
 	if isFloatT(xt) {
+		// Arithmetic on floats is not exact: the result is the real result up to one rounding (relative
+		// error at most 2^-52), not the real result itself. (Values read from the library - e.g.
+		// Duration.Seconds() - stay the exact reals of assumption A9; what is computed from them here
+		// does not.) So `uint32(d.Seconds()*1000)` is not provably `d.Milliseconds()`, which it is not.
+		rounded := func(exact Term) *Val {
+			if os.Getenv("GOVC_FLOAT_EXACT") != "" {
+				return mk(exact)
+			}
+			e := vc.define("fexact", SReal, exact)
+			r := fr.vc.fresh("fround", SReal)
+			lo, hi := sx("*", e, "0.9999999999999997"), sx("*", e, "1.0000000000000003")
+			vc.assume(fr.reach, ite(sx(">=", e, "0.0"), and(sx("<=", lo, r), sx("<=", r, hi)), and(sx("<=", hi, r), sx("<=", r, lo))))
+			return mk(r)
+		}
 		switch op {
 		case token.ADD:
-			return mk(sx("+", x.T, y.T))
+			return rounded(sx("+", x.T, y.T))
 		case token.SUB:
-			return mk(sx("-", x.T, y.T))
+			return rounded(sx("-", x.T, y.T))
 		case token.MUL:
-			return mk(sx("*", x.T, y.T))
+			return rounded(sx("*", x.T, y.T))
 		case token.QUO:
-			return mk(sx("/", x.T, y.T))
+			return rounded(sx("/", x.T, y.T))
 		case token.LSS:
 			return mk(sx("<", x.T, y.T))
 		case token.LEQ:
